@@ -95,6 +95,27 @@ Definition to_opt (o : optname) (v : option string) : opt :=
 Definition option_accepts (o : optname) (v : option string) : bool :=
   option_ok (List.length (documented_options o)) (to_opt o v).
 
+(* a setting value as Python hands it over.  Only None and str values can be documented values of an enumerated
+   option; a value of any other type (bool, int, float, bytes, tuple, list - in particular the falsy ones False, 0,
+   0.0, b'', (), []) is unknown, and strings are compared exactly (case and white space matter).  Tuples / lists
+   carry their items when these are strings or None. *)
+Inductive pyval := PNone | PStr (s : string) | PBool (b : bool) | PInt (z : Z) | PFloat (f : float)
+                 | PBytes (s : string) | PTuple (items : list (option string)) | PList (items : list (option string)).
+Definition pyval_as_option (v : pyval) : option (option string) :=
+  match v with PNone => Some None | PStr s => Some (Some s) | _ => None end.
+Definition option_accepts_val (o : optname) (v : pyval) : bool :=
+  match pyval_as_option v with Some x => option_accepts o x | None => false end.
+(* Python truthiness of such a value (bool(v) is False) *)
+Definition falsy (v : pyval) : bool :=
+  match v with
+  | PNone => true
+  | PStr s | PBytes s => String.eqb s ""
+  | PBool b => negb b
+  | PInt z => Z.eqb z 0
+  | PFloat f => (f =? 0)%float
+  | PTuple l | PList l => match l with [] => true | _ => false end
+  end.
+
 (* sampling rate: positive *)
 Definition fs_ok (fs : float) : bool := (0 <? fs)%float.
 
@@ -117,6 +138,8 @@ Definition bad_amp_threshes := report run_amp_threshes Bool.eqb.
 Definition bad_min_n := report min_n_ok Bool.eqb.
 Definition run_option (x : optname * option string) : bool := option_accepts (fst x) (snd x).
 Definition bad_option := report run_option Bool.eqb.
+Definition run_optval (x : optname * pyval) : bool := option_accepts_val (fst x) (snd x).
+Definition bad_optval := report run_optval Bool.eqb.
 Definition bad_fs := report fs_ok Bool.eqb.
 Inductive guard := GFit (ndim : nat) | GGroup (ndim : nat) | GPlot (fitted : bool).
 Definition run_guard (g : guard) : bool :=
